@@ -243,6 +243,12 @@ func buildQuery(q *QNode) (b6.Query, error) {
 		return b6.All{}, nil
 	case "empty":
 		return b6.Empty{}, nil
+	case "isvalid":
+		return b6.IsValid{}, nil
+	case "icells":
+		return b6.IntersectsCells{Cells: []s2.Cell{s2.CellFromPoint(e7Points([][2]int64{{515000000, -1000000}})[0])}}, nil
+	case "might":
+		return b6.MightIntersect{Region: s2.CellFromPoint(e7Points([][2]int64{{515000000, -1000000}})[0])}, nil
 	case "keyed":
 		return b6.Keyed{Key: q.Key}, nil
 	case "tagged":
@@ -355,6 +361,10 @@ func build(n *Node, withPos bool) (b6.Expression, error) {
 		a = b6.FloatExpression(v)
 	case "bool":
 		a = b6.BoolExpression(n.C == "true")
+	case "nil": // outside the property's domain (observation only)
+		a = b6.NilExpression{}
+	case "tagint": // outside the property's domain (observation only)
+		a = b6.TagExpression{Key: "#a", Value: b6.NewIntExpression(3)}
 	case "str":
 		a = b6.StringExpression(strValue(n.Lit, n.S))
 	case "id":
